@@ -183,6 +183,24 @@ def task_default_limit(text):
         _W['p'].parse = orig
 
 
+HIER_DEF = 'define hierarchical ruleset %s (variable rule Id_2) is A = B + C end hierarchical ruleset;'
+HIER_USE = 'r := hierarchy(DS_1, %s);'
+_probe_n = [0]
+
+
+def task_hier_probe(_):
+    """the same text before and after an unrelated script that defines a hierarchical ruleset of the same name"""
+    _probe_n[0] += 1
+    name = 'hr_c23_%d_%d' % (os.getpid(), _probe_n[0])
+    before = task_history([HIER_USE % name])[0]
+    after = task_history([HIER_DEF % name, HIER_USE % name])[1]
+    return name, before, after
+
+
+def hist_key(text):
+    return 'C23/py/history-dependence/hierarchical-ruleset-registry' if 'hierarchy' in text else 'C23/py/history-dependence'
+
+
 def task_fresh(text):
     return task_history([text])[0]
 
@@ -672,6 +690,7 @@ def main(ck):
         rB = pool.map(task_history_light, [[texts[i] for i in h] for h in hB], chunksize=1)
         nest_cases = [(f, n, NEST[f](n)) for f in ('paren', 'chain', 'neg', 'not', 'if') for n in (NEST_OK, NEST_PROBE)]
         rN = pool.map(task_default_limit, [c[2] for c in nest_cases], chunksize=1)
+        rH = pool.map(task_hier_probe, [0], chunksize=1)
     n_fresh = 16 if quick else 96
     fresh_idx = rng.sample(range(len(texts)), min(n_fresh, len(texts)))
     with ctx.Pool(16, initializer=winit, maxtasksperchild=1) as pool:
@@ -712,16 +731,23 @@ def main(ck):
                          'create_ast(%r) under the stand-in parser: %s' % (t[:80], posbad))
         # history independence: same text, two different histories
         if resA[i][:2] != resB[i][:2] and not limited(resA[i], resB[i]):
-            ck.violation('C23/py/history-dependence', {'kind': 'py-history', 'text': t, 'after_A': texts[prevA[i]] if prevA[i] is not None else None,
+            ck.violation(hist_key(t), {'kind': 'py-history', 'text': t, 'after_A': texts[prevA[i]] if prevA[i] is not None else None,
                                                         'after_B': texts[prevB[i]] if prevB[i] is not None else None,
                                                         'outcome_A': show(resA[i]), 'outcome_B': show(resB[i])},
                          'parsing %r gives different results after different earlier parses (Python layer under the stand-in parser)' % t[:80])
     for i, x in zip(fresh_idx, rF):             # ... and a fresh process for a subset
         ck.count(('py-fresh', texts[i]))
         if x[:3] != resA[i][:3] and not limited(x, resA[i]):
-            ck.violation('C23/py/history-dependence', {'kind': 'py-history', 'text': texts[i], 'after_A': texts[prevA[i]] if prevA[i] is not None else None,
+            ck.violation(hist_key(texts[i]), {'kind': 'py-history', 'text': texts[i], 'after_A': texts[prevA[i]] if prevA[i] is not None else None,
                                                         'outcome_fresh_process': show(x), 'outcome_A': show(resA[i])},
                          'parsing %r in a fresh process differs from parsing it after other texts' % texts[i][:80])
+    for name, before, after in rH:
+        ck.count(('py-hier-probe',))
+        if before[:3] != after[:3]:
+            ck.violation(hist_key(HIER_USE % name), {'kind': 'py-history', 'text': HIER_USE % name, 'after_A': None, 'after_B': HIER_DEF % name,
+                                                     'outcome_A': show(before), 'outcome_B': show(after)},
+                         'create_ast(%r) gives a different AST after an unrelated earlier create_ast(%r): the module-level registry '
+                         'AST/ASTDataExchange.py:de_ruleset_elements is never cleared' % (HIER_USE % name, HIER_DEF % name))
     # a timeout inside the repo's Python layer counts only when it persists alone with a 12x budget (the machine is shared)
     if slow:
         with ctx.Pool(4, initializer=winit_slow) as pool:
